@@ -182,7 +182,7 @@ RF("C12", _SI, "            self.step()\n            self.currentTime += 1\n    
 M("C13", "C13.priority", _CO, "            [ast.Name(n, ast.Load()) for n in reversed(handlerNames)], ast.Load()", "            [ast.Name(n, ast.Load()) for n in handlerNames], ast.Load()", "c13-handlers-not-reversed")
 M("C13", "C13.priority", _IV, "            if interrupt.isEnabled or interrupt.isRunning:\n                block = interrupt\n                break", "            if interrupt.isEnabled or interrupt.isRunning:\n                block = interrupt", "c13-scan-no-break")
 M("C13", "C13.resume", _IV, "            result = self.runningIterator.send(None)\n            return (result, False)", "            result = self.runningIterator.send(None)\n            self.runningIterator = None\n            return (result, False)", "c13-iterator-cleared-each-step")
-M("C13", "C13.invariants", _IV, "            yield result\n            behavior.checkInvariants(None, *behavior._args, **behavior._kwargs)", "            yield result", "c13-no-invariant-recheck")
+M("C13", "C13.invariants", _IV, "            yield result\n            behavior.checkInvariants(agent, *behavior._args, **behavior._kwargs)", "            yield result", "c13-no-invariant-recheck")
 M("C13", "C13.invariants", _CO, "        return [\n            invokeAction,\n            checkInvariants,\n        ]", "        return [\n            invokeAction,\n        ]", "c13-invocation-without-invariants")
 M("C13", "C13.abandon", _BH, "            try:\n                yield from sub._runningIterator\n            finally:\n                if sub._isRunning:\n                    sub._stop()", "            yield from sub._runningIterator\n            if sub._isRunning:\n                sub._stop()", "c13-sub-not-stopped-on-abandon")
 M("C13", "C13.abandon", _IV, "                lambda: veneer.currentSimulation.currentTime - startTime >= timeLimit", "                lambda: veneer.currentSimulation.currentTime - startTime > timeLimit", "c13-duration-off-by-one")
@@ -286,9 +286,9 @@ RF("C04", _R, "                overlap = self._containsPointExact(\n            
 
 M("C13", "C13.invariants", _IV, "            behavior.checkInvariants(agent, *behavior._args, **behavior._kwargs)", "            behavior.checkInvariants(None, *behavior._args, **behavior._kwargs)", "c13-tryinterrupt-invariants-none")
 M("C13", "C13.flags", _CO, "        usedBreak, usedContinue = self.usedBreak, self.usedContinue\n        self.usedBreak, self.usedContinue = oldUsedBreak, oldUsedContinue\n", "        usedBreak, usedContinue = self.usedBreak, self.usedContinue\n", "c13-restore-dropped")
-M("C13", "C13.invariants", _DS, "        if self._delayingPreconditionCheck:\n            self._checkAllPreconditions()", "        if self._delayingPreconditionCheck:\n            self._delayingPreconditionCheck = False\n            self._checkAllPreconditions()", "c13-delay-flag-cleared")
-M("C13", "C13.invariants", _DS, "        if self._delayingPreconditionCheck:\n            self._checkAllPreconditions()", "        if self._delayingPreconditionCheck and self._compose is not None:\n            self._checkAllPreconditions()", "c13-delayed-check-narrowed")
-RF("C13", _DS, "        if self._delayingPreconditionCheck:\n            self._checkAllPreconditions()", "        if not self._delayingPreconditionCheck:\n            pass\n        else:\n            self._checkAllPreconditions()", "c13-rf-delayed-check-inverted")
+M("C13", "C13.invariants", _DS, "        if self._delayingPreconditionCheck:\n            try:\n                self._checkAllPreconditions()", "        if self._delayingPreconditionCheck:\n            self._delayingPreconditionCheck = False\n            try:\n                self._checkAllPreconditions()", "c13-delay-flag-cleared")
+M("C13", "C13.invariants", _DS, "        if self._delayingPreconditionCheck:\n            try:", "        if self._delayingPreconditionCheck and self._compose is not None:\n            try:", "c13-delayed-check-narrowed")
+RF("C13", _DS, "        if self._delayingPreconditionCheck:\n            try:\n                self._checkAllPreconditions()\n            except BaseException:\n                # We have not started anything yet, but must not stay marked as running:\n                # this object is started again by the next simulation.\n                super()._stop()\n                raise\n", "        if not self._delayingPreconditionCheck:\n            pass\n        else:\n            try:\n                self._checkAllPreconditions()\n            except BaseException:\n                super()._stop()\n                raise\n", "c13-rf-delayed-check-inverted")
 M("C14", "C14.started", _DS, "            try:\n                self._checkAllPreconditions()\n            except BaseException:\n                # We have not started anything yet, but must not stay marked as running:\n                # this object is started again by the next simulation.\n                super()._stop()\n                raise\n", "            self._checkAllPreconditions()\n", "c14-start-unprotected-guard")
 M("C14", "C14.started", _DS, "                super()._stop()\n                raise\n", "                raise\n", "c14-start-handler-keeps-mark")
 M("C18", "C18.recorded", _IV, "                choice = Options(enabled)", "                import random as _r\n                choice = _r.choices(tuple(enabled), weights=tuple(enabled.values()))[0]", "c18-runtime-direct-draw")
